@@ -132,6 +132,78 @@ pub fn worker(prop: &str, seed: u64, from: u64, to: u64, thorough: bool, progres
     out
 }
 
+
+// ---------------------------------------------------------------------------------------
+// child processes with a wall-clock limit.  The limit never decides a verdict on its own: a
+// run that exceeds it is localised (progress mode) and re-executed alone in a fresh process;
+// only if that one times out again is it reported (class .../process-died, status "timeout").
+
+static TMP_COUNTER: std::sync::atomic::AtomicUsize = std::sync::atomic::AtomicUsize::new(0);
+
+fn tmp_path(tag: &str) -> PathBuf {
+    let dir = verif_root().join("sim").join("target").join("simtmp");
+    let _ = std::fs::create_dir_all(&dir);
+    let n = TMP_COUNTER.fetch_add(1, std::sync::atomic::Ordering::SeqCst);
+    dir.join(format!("{}-{}-{}.out", tag, std::process::id(), n))
+}
+
+pub fn worker_timeout(thorough: bool) -> std::time::Duration {
+    let secs = std::env::var("SIMCHECK_TIMEOUT").ok().and_then(|s| s.parse::<u64>().ok()).unwrap_or(if thorough { 3600 } else { 600 });
+    std::time::Duration::from_secs(secs)
+}
+
+pub struct Finished {
+    /// None = killed after the time limit
+    pub status: Option<std::process::ExitStatus>,
+    pub stdout: String,
+}
+
+struct Running {
+    child: std::process::Child,
+    out: PathBuf,
+    deadline: Instant,
+}
+
+fn start(args: &[&str], stdin: Option<&str>, limit: std::time::Duration) -> Running {
+    let out = tmp_path("w");
+    let f = std::fs::File::create(&out).expect("create temp output");
+    let mut cmd = Command::new(self_exe());
+    cmd.args(args).stdout(Stdio::from(f)).stderr(Stdio::null());
+    if stdin.is_some() {
+        cmd.stdin(Stdio::piped());
+    }
+    let mut child = cmd.spawn().expect("spawn child");
+    if let Some(data) = stdin {
+        let mut si = child.stdin.take().unwrap();
+        let _ = si.write_all(data.as_bytes());
+    }
+    Running { child, out, deadline: Instant::now() + limit }
+}
+
+fn finish(mut r: Running) -> Finished {
+    let status = loop {
+        match r.child.try_wait() {
+            Ok(Some(st)) => break Some(st),
+            Ok(None) => {
+                if Instant::now() >= r.deadline {
+                    let _ = r.child.kill();
+                    let _ = r.child.wait();
+                    break None;
+                }
+                std::thread::sleep(std::time::Duration::from_millis(5));
+            }
+            Err(_) => break None,
+        }
+    };
+    let stdout = std::fs::read_to_string(&r.out).unwrap_or_default();
+    let _ = std::fs::remove_file(&r.out);
+    Finished { status, stdout }
+}
+
+fn run_limited(args: &[&str], stdin: Option<&str>, limit: std::time::Duration) -> Finished {
+    finish(start(args, stdin, limit))
+}
+
 fn self_exe() -> PathBuf {
     std::env::current_exe().expect("current_exe")
 }
@@ -139,7 +211,7 @@ fn self_exe() -> PathBuf {
 struct Spawned {
     from: u64,
     to: u64,
-    child: std::process::Child,
+    child: Running,
 }
 
 /// Result of a child process that died.
@@ -149,17 +221,13 @@ pub struct Death {
 }
 
 fn find_dead_index(prop: &str, seed: u64, from: u64, to: u64, thorough: bool) -> Option<Death> {
-    let out = Command::new(self_exe())
-        .args(["worker", prop, &seed.to_string(), &from.to_string(), &to.to_string(), if thorough { "thorough" } else { "quick" }, "progress"])
-        .stderr(Stdio::null())
-        .output()
-        .ok()?;
-    if out.status.success() {
+    let tier = if thorough { "thorough" } else { "quick" };
+    let f = run_limited(&["worker", prop, &seed.to_string(), &from.to_string(), &to.to_string(), tier, "progress"], None, worker_timeout(thorough));
+    if f.status.map_or(false, |s| s.success()) {
         return None;
     }
-    let text = String::from_utf8_lossy(&out.stdout);
-    let last = text.lines().filter_map(|l| l.strip_prefix("PROGRESS ")).filter_map(|s| s.trim().parse::<u64>().ok()).last()?;
-    Some(Death { index: last, status: format!("{}", out.status) })
+    let last = f.stdout.lines().filter_map(|l| l.strip_prefix("PROGRESS ")).filter_map(|s| s.trim().parse::<u64>().ok()).last()?;
+    Some(Death { index: last, status: match f.status { Some(st) => format!("{}", st), None => "timeout".to_string() } })
 }
 
 /// process deaths are expensive to localise; after a few of them the rest of the affected
@@ -180,22 +248,16 @@ pub fn run_batch(prop: &str, seed: u64, runs: u64, thorough: bool, jobs: usize) 
     let mut from = 0;
     while from < runs {
         let to = (from + chunk).min(runs);
-        let child = Command::new(self_exe())
-            .args(["worker", prop, &seed.to_string(), &from.to_string(), &to.to_string(), if thorough { "thorough" } else { "quick" }])
-            .stdout(Stdio::piped())
-            .stderr(Stdio::null())
-            .spawn()
-            .expect("spawn worker");
+        let child = start(&["worker", prop, &seed.to_string(), &from.to_string(), &to.to_string(), if thorough { "thorough" } else { "quick" }], None, worker_timeout(thorough));
         children.push(Spawned { from, to, child });
         from = to;
     }
     let mut total = WorkerOut::default();
     let mut deaths = Vec::new();
     for sp in children {
-        let o = sp.child.wait_with_output().expect("wait worker");
-        let text = String::from_utf8_lossy(&o.stdout);
-        let parsed = text.lines().rev().find_map(|l| l.strip_prefix("RESULT ")).and_then(|j| serde_json::from_str::<WorkerOut>(j).ok());
-        match (o.status.success(), parsed) {
+        let o = finish(sp.child);
+        let parsed = o.stdout.lines().rev().find_map(|l| l.strip_prefix("RESULT ")).and_then(|j| serde_json::from_str::<WorkerOut>(j).ok());
+        match (o.status.map_or(false, |s| s.success()), parsed) {
             (true, Some(w)) => {
                 total.stats.merge(&w.stats);
                 total.runs += w.runs;
@@ -228,7 +290,7 @@ pub fn run_batch(prop: &str, seed: u64, runs: u64, thorough: bool, jobs: usize) 
                         }
                         deaths.push(d);
                     }
-                    None => total.harness_errors.push(format!("worker {}..{} failed ({}) but the failure did not reproduce", sp.from, sp.to, o.status)),
+                    None => total.harness_errors.push(format!("worker {}..{} failed ({:?}) but the failure did not reproduce", sp.from, sp.to, o.status)),
                 }
             }
         }
@@ -240,15 +302,10 @@ pub fn run_batch(prop: &str, seed: u64, runs: u64, thorough: bool, jobs: usize) 
 /// run one contiguous index range in a single child (used after a death)
 fn run_range(prop: &str, seed: u64, from: u64, to: u64, thorough: bool) -> BatchResult {
     let t0 = Instant::now();
-    let o = Command::new(self_exe())
-        .args(["worker", prop, &seed.to_string(), &from.to_string(), &to.to_string(), if thorough { "thorough" } else { "quick" }])
-        .stderr(Stdio::null())
-        .output()
-        .expect("spawn worker");
-    let text = String::from_utf8_lossy(&o.stdout);
-    let parsed = text.lines().rev().find_map(|l| l.strip_prefix("RESULT ")).and_then(|j| serde_json::from_str::<WorkerOut>(j).ok());
+    let o = run_limited(&["worker", prop, &seed.to_string(), &from.to_string(), &to.to_string(), if thorough { "thorough" } else { "quick" }], None, worker_timeout(thorough));
+    let parsed = o.stdout.lines().rev().find_map(|l| l.strip_prefix("RESULT ")).and_then(|j| serde_json::from_str::<WorkerOut>(j).ok());
     let mut res = BatchResult { out: WorkerOut::default(), deaths: Vec::new(), wall_s: 0.0 };
-    match (o.status.success(), parsed) {
+    match (o.status.map_or(false, |s| s.success()), parsed) {
         (true, Some(w)) => res.out = w,
         _ if DEATHS.fetch_add(1, std::sync::atomic::Ordering::SeqCst) >= MAX_DEATHS => {
             res.out.stats.hit("exploration-truncated-after-process-deaths");
@@ -284,21 +341,12 @@ pub enum Verdict {
 }
 
 pub fn exec_in_child(prop: &str, trace: &Trace) -> Verdict {
-    let mut child = Command::new(self_exe())
-        .args(["exec-stdin", prop])
-        .stdin(Stdio::piped())
-        .stdout(Stdio::piped())
-        .stderr(Stdio::null())
-        .spawn()
-        .expect("spawn");
-    {
-        let mut stdin = child.stdin.take().unwrap();
-        let _ = stdin.write_all(serde_json::to_string(trace).unwrap().as_bytes());
-    }
-    let o = child.wait_with_output().expect("wait");
-    let text = String::from_utf8_lossy(&o.stdout);
-    if !o.status.success() && !text.contains("VERDICT ") {
-        return Verdict::Died(format!("{}", o.status));
+    let limit = std::time::Duration::from_secs(std::env::var("SIMCHECK_RUN_TIMEOUT").ok().and_then(|s| s.parse::<u64>().ok()).unwrap_or(60));
+    let o = run_limited(&["exec-stdin", prop], Some(&serde_json::to_string(trace).unwrap()), limit);
+    let text = o.stdout;
+    let Some(status) = o.status else { return Verdict::Died("timeout".to_string()) };
+    if !status.success() && !text.contains("VERDICT ") {
+        return Verdict::Died(format!("{}", status));
     }
     match text.lines().rev().find_map(|l| l.strip_prefix("VERDICT ")) {
         Some("held") => Verdict::Held,
@@ -307,7 +355,7 @@ pub fn exec_in_child(prop: &str, trace: &Trace) -> Verdict {
             Ok(v) => Verdict::Violated(v),
             Err(e) => Verdict::HarnessError(format!("unparsable verdict: {}", e)),
         },
-        None => Verdict::Died(format!("{}", o.status)),
+        None => Verdict::Died(format!("{}", status)),
     }
 }
 
@@ -629,6 +677,17 @@ pub fn check(opts: &CheckOpts) -> i32 {
     for d in res.deaths.iter() {
         let rs = run_seed(opts.seed, prop, d.index);
         let trace = worlds::generate(prop, rs, d.index, opts.thorough);
+        if d.status == "timeout" {
+            // wall-clock alone decides nothing: the run must exceed the limit again, alone
+            match exec_in_child(prop, &trace) {
+                Verdict::Died(s) if s == "timeout" => {}
+                other => {
+                    eprintln!("HARNESS-ERROR: run {} exceeded the time limit in a batch but not alone ({:?}); not reported", d.index, other);
+                    exit = exit.max(2);
+                    continue;
+                }
+            }
+        }
         let class = format!("{}/process-died", prop);
         let v = Violation::new(prop, "process-died", 0, format!("worker process died: {}", d.status));
         if let Some(k) = matches_known(&known, prop, &v, &trace) {
@@ -640,7 +699,7 @@ pub fn check(opts: &CheckOpts) -> i32 {
             continue;
         }
         let original_ops = worlds::ops_len(&trace);
-        let min = minimise(prop, &trace, &class, false, 300);
+        let min = minimise(prop, &trace, &class, false, if d.status == "timeout" { 6 } else { 300 });
         let rf = ReplayFile {
             property: prop.to_string(),
             verif_seed: opts.seed,
